@@ -34,7 +34,7 @@ C07-4 s_float_fast_bounds
 C07-5 k_decimal_round_6
 C08-1 s_float_fast_bounds
 C08-2 b_skip_number_w30
-C08-3 k_float_nonfinite_null
+C08-3 u_int_widths_reach_itoa
 C08-4 u_skip_number_n5
 C08-5 s_float_fast_bounds
 C09-1 k_unicode_copying
